@@ -948,6 +948,15 @@ func c18c(c *Ctx) {
 						c.Bad(key, pos, pretty(operand)+": the reviewed exemption relies on a dominating upper-bound comparison of this index against len-1, which is not there (guards here: "+fmt.Sprint(prettyAll(must))+")")
 						return
 					}
+					// ... and the index comes from outside (a configuration file): it can be negative
+					// unless that is excluded as well
+					if idx != nil && lowerBound(idx) < 0 {
+						it := c.term(fn, idx)
+						if !(hasLit(must, "-("+it+" < 0)") || hasLit(must, "+(0 <= "+it+")") || hasLit(must, "+(-1 < "+it+")")) {
+							c.Bad(key, pos, pretty(operand)+": the index is read from the command configuration and is only compared with the number of arguments; a negative value (\"var_name_arg_position\": -1) passes that test and indexes out of range — the compiler panics instead of reporting the configuration error (guards here: "+fmt.Sprint(prettyAll(must))+")")
+							return
+						}
+					}
 				}
 				nExempt++
 				c.OK(key, pos, pretty(operand)+": exempted — "+e.Reason)
